@@ -5,7 +5,7 @@ from . import enc, gen
 from . import stubs  # noqa
 
 AWKWARD = ['(', ')', '[', ']', '{', '}', '<', '>', '&', '"', "'", '/', '|', ',', '.', ':', ';', '-', '_', '%', 'a>b', '<x>', 'a/b', 'x&y',
-           "can't", '"q"', 'C++', '100%', '-LRB-', 'a_b', '日本', '語', 'é', '\U0001F600', 'café', 'A|B', 'x:y', '&amp;', 'a.b', '--', 'x)[conj]', 'y][conj]', 'f(x)', 'T>', '<L']
+           "can't", '"q"', 'C++', '100%', '-LRB-', 'a_b', '日本', '語', 'é', '\U0001F600', 'café', 'A|B', 'x:y', '&amp;', 'a.b', '--', 'x)[conj]', 'y][conj]', 'f(x)', 'T>', '<L', 'a\\b']
 PLAIN = ['John', 'loves', 'Mary', 'the', 'dog', 'runs', 'and', 'cat', 'quickly', 'of', 'Tokyo', 'saw']
 
 
@@ -191,8 +191,10 @@ def make_batch(rng, lang, nsent=None, nbest=None, awkward=0.4, exclude='', licen
             t = None
             if rng.random() < licensed_p:
                 t = licensed_tree(rng, lang, n, lexicon, tokfn, words)
+            lic = t is not None
             if t is None:
                 t = arbitrary_tree(rng, n, catpool, tokfn, words, labels)
+            t['licensed'] = lic
             # all n-best trees of a sentence are over the same token objects' values
             lv = leaves_of(t)
             if toks is None:
